@@ -56,6 +56,9 @@ class P(vlib.Prop):
         vlib.Harness("proc", "processor/processorhelper", ".",
                      {"zz_verif_c19_test.go": "C19/proc_test.go", "zz_verif_c19_tel_test.go": _tel("processorhelper")},
                      "^TestVerifC19Proc$", "processorhelper"),
+        vlib.Harness("pipe", "service", "./internal/obsconsumer/",
+                     {"zz_verif_c19_test.go": "C19/pipe_test.go", "zz_verif_c19_tel_test.go": _tel("obsconsumer")},
+                     "^TestVerifC19Pipe$", "obsconsumer"),
         vlib.Harness("exp", "exporter", "./exporterhelper/internal/",
                      {"zz_verif_c19_test.go": "C19/exp_test.go", "zz_verif_c19_tel_test.go": _tel("internal"),
                       # add-only accessor (build tag verif) into the queuebatch package: reads the
@@ -66,6 +69,8 @@ class P(vlib.Prop):
     rule = ("receiver: histories of 1-12 End{Traces,Metrics,Logs}Op calls (items 0..10^6, error or not) on the real ObsReport; "
             "scraper: histories of scrapes through the real metrics/logs controller (1-4 scrapers each: ok / partial / error, consumer ok / error); "
             "processor: histories through processorhelper.New{Traces,Metrics,Logs} (forward with changed count / error / skip, next consumer ok / error); "
+            "pipeline: histories through service/internal/obsconsumer New{Traces,Metrics,Logs,Profiles} with a downstream consumer that is read-only / moves the data out / drops items / appends items and succeeds or fails; "
+            "scraper, processor and pusher errors are handed over plain or wrapped (%w, errors.Join); next consumers take the data away after tallying it; "
             "exporter: histories of Send calls (single, gated bursts, timer flushes) through the real BaseExporter under generated "
             "queue (none / memory / persistent, requests / items sizer, capacity), batch (none / sending_queue::batch / legacy batcher, min, max), "
             "retry and scripted pusher outcomes (ok / transient / permanent / partial / interrupted by shutdown), then Shutdown. "
@@ -75,7 +80,7 @@ class P(vlib.Prop):
     trusted_base = [
         "Coq 8.16.1 kernel + vm_compute (coqc); no axioms (Print Assumptions: closed under the global context)",
         "hand-written ledger model coq/C19/Model.v, tied to the Go helpers by the correspondence run on every check",
-        "Go harnesses harness/C19/*.go + go test -overlay (incl. an add-only accessor file in queuebatch); Go toolchain",
+        "Go harnesses harness/C19/*.go (receiverhelper, scraperhelper, processorhelper, service/internal/obsconsumer, exporterhelper/internal) + go test -overlay (incl. an add-only accessor file in queuebatch); Go toolchain",
         "the OpenTelemetry SDK's sum aggregation and manual reader (counters are read back through it)",
     ]
     assumptions = [
@@ -88,7 +93,7 @@ class P(vlib.Prop):
     def translate(self, ctx):
         src = open(os.path.join(vlib.VERIF, "harness", "C19", "tel.go.tmpl")).read()
         os.makedirs(_WORK, exist_ok=True)
-        for pkg in ("receiverhelper", "scraperhelper", "processorhelper", "internal"):
+        for pkg in ("receiverhelper", "scraperhelper", "processorhelper", "internal", "obsconsumer"):
             p = _tel(pkg)
             text = src.replace("@PKG@", pkg)
             if not (os.path.exists(p) and open(p).read() == text):
